@@ -34,6 +34,21 @@ CLAIMED = {
    note="Trusted: Coq kernel, translator (OBVIOUS_REDIRECTS_RE, REDIRECTION_DOMAINS_RE ASTs), extraction, driver, harness; urllib urljoin / unquote models (leaf correspondence); ipaddress oracle for bracketed hosts.",
    technique="Coq termination / fixed-point proof on a fuelled loop model + differential correspondence under alarms",
    ref="6 C15"),
+ "C11": dict(
+   text="Proved in Coq (closed under the global context): an LRUTrie is a TrieDict keyed by the stems with empty path stems removed, so for every history of set / set_lru calls, with no bound on length, match / match_lru return the value under the longest stored key that is a prefix of the query's key (latest value wins, None when none), and len / iteration report each stored key once — corollaries of the C10 refinement. PARTIAL: (i) stems enter these theorems as given lists; their computation from urls is tied by correspondence (C12/C13); (ii) 'two urls with the same canonical / normalized / fingerprinted string are the same key in the variant tries' is checked on the implementation over pairs of spellings, not proved. Tie: extracted model vs LRUTrie vs a dictionary oracle on exhaustive short and random long histories, serialized and list LRUs, both suffix_aware settings.",
+   note="Trusted: Coq kernel, translator, extraction, driver, harness; PSL trie for suffix_aware as in C08.",
+   technique="Coq refinement (corollary of the TrieDict proof) + differential correspondence",
+   ref="6 C11"),
+ "C12": dict(
+   text="PARTIAL. Proved in Coq: a serialized LRU always ends with '|'; the two splitter regexes read from the source are pinned structurally (so an edit stops a named lemma); round trips computed inside Coq on concrete urls of every shape of the grammar. The lossless round trip (re-parse of lru_to_url(url_to_lru(u)) equals the components of u, LRU stability, unserialize o serialize and serialize o unserialize) is decided by re-parsing the implementation's output over the property's grammar (userinfo with / without / empty password, '@' inside, IPv4 / bracketed IPv6 with hex letters / localhost / trailing-dot / IDN hosts, ports, empty segments, empty and non-empty query and fragment, ':' '@' in path and query) x suffix_aware, and by model-vs-implementation correspondence on the same inputs; not proved for all urls.",
+   note="Trusted: as C11; urlsplit / urlunsplit models (leaf correspondence). Five genuine defects of the pinned tree were repaired by fix: commits (empty user/password, '@' in userinfo, IPv6 ports with hex letters, trailing dot with suffix_aware).",
+   technique="Coq model + computed side conditions + parse-back deciders + differential correspondence",
+   ref="6 C12"),
+ "C13": dict(
+   text="PARTIAL. Proved in Coq: if the stems of u are a prefix of the stems of v then the serialized LRU of u is a string prefix of that of v (the '|' terminator), and cleaning empty path stems distributes over concatenation / is idempotent. That v lies under u exactly when u's cleaned stems are a prefix of v's is decided on all ordered pairs of a universe (3 scheme/port x 11 host chains incl. multi-label and private suffixes x 6 path chains x trailing slash x query / fragment), both directions, both suffix_aware settings, with the extracted model compared on every url; not proved for all urls.",
+   note="Trusted: as C12.",
+   technique="Coq lemmas on stem lists + exhaustive pair decider + differential correspondence",
+   ref="6 C13"),
 }
 
 NOT_YET = {}
